@@ -2792,4 +2792,205 @@ theorem image_norm (v : Val) (hwf : v.wf = true) : image v.norm ≈ᵥ image v :
   | [_], _ :: _ :: _, hl => simp at hl
   | _ :: _ :: _, [_], hl => simp at hl
 
+
+/-! ### `AnyXml`: bytes = rendering of the tree; the tree decodes to `anyImage` -/
+
+theorem marshal_eq_render (cfg : EncCfg) (key : Str) (v : Val) (hp : Plain cfg v = true) :
+    marshal cfg key v = (encTree cfg key v.norm).map (fun ns => ns.flatMap (render cfg)) := by
+  unfold marshal
+  exact marshalN_eq_render cfg key v.norm (Plain_norm cfg v hp)
+
+/-- the bytes of one member of a top-level list -/
+def anyOne (cfg : EncCfg) (et : Str) (x : Val) : Except ErrKind Str :=
+  match x with
+  | .map [(tag, val)] =>
+      if tag = cfg.textK || isAttrK cfg tag then marshal cfg et x else marshal cfg tag val
+  | x => marshal cfg et x
+
+theorem anyGo_cons (cfg : EncCfg) (et : Str) (x : Val) (rest : List Val) :
+    anyXml.go cfg et (x :: rest) =
+      match anyOne cfg et x with
+      | .error e => .error e
+      | .ok a => match anyXml.go cfg et rest with
+        | .error e => .error e
+        | .ok r => .ok (a ++ r) := by
+  match x with
+  | .null => rfl
+  | .bool _ => rfl
+  | .num _ => rfl
+  | .str _ => rfl
+  | .list _ => rfl
+  | .map [] => rfl
+  | .map [(_, _)] => rfl
+  | .map (_ :: _ :: _) => rfl
+
+theorem anyOne_eq_render (cfg : EncCfg) (et : Str) (x : Val) (hp : Plain cfg x = true) :
+    anyOne cfg et x = (anyMember cfg et x).map (fun ns => ns.flatMap (render cfg)) := by
+  unfold anyOne anyMember
+  split
+  · rename_i tag val
+    have hv : Plain cfg val = true := by
+      simp only [Plain, PlainEntries, Bool.and_eq_true] at hp
+      exact hp.1.2
+    split
+    · rename_i hc
+      simp only [hc, if_true]
+      exact marshal_eq_render cfg et _ hp
+    · rename_i hc
+      simp only [hc, Bool.false_eq_true, if_false]
+      exact marshal_eq_render cfg tag val hv
+  · rename_i hx
+    split
+    · rename_i tag val
+      exact absurd rfl (hx tag val)
+    · exact marshal_eq_render cfg et x hp
+
+theorem anyGo_eq_render (cfg : EncCfg) (et : Str) : ∀ (xs : List Val), PlainList cfg xs = true →
+    anyXml.go cfg et xs = (anyMembers cfg et xs).map (fun ns => ns.flatMap (render cfg))
+  | [], _ => rfl
+  | x :: rest, hp => by
+      simp only [PlainList, Bool.and_eq_true] at hp
+      rw [anyGo_cons, anyOne_eq_render cfg et x hp.1, anyGo_eq_render cfg et rest hp.2]
+      simp only [anyMembers]
+      cases anyMember cfg et x <;> cases anyMembers cfg et rest <;> simp [Except.map]
+
+theorem anyXml_eq_render (cfg : EncCfg) (v : Val) (rt et : Str) (hp : Plain cfg v = true) :
+    anyXml cfg v rt et = (anyTree cfg v rt et).map (fun ns => ns.flatMap (render cfg)) := by
+  cases v with
+  | null =>
+    simp only [anyXml, anyTree, Except.map, flatMap_render_single, render, renderAttrs, endOf,
+      List.isEmpty_nil, if_true]
+    cases cfg.goEmpty <;> simp
+  | list xs =>
+    simp only [Plain] at hp
+    simp only [anyXml, anyTree, anyGo_eq_render cfg et xs hp]
+    cases hE : anyMembers cfg et xs with
+    | error e => rfl
+    | ok kids =>
+      simp only [Except.map, flatMap_render_single, render, renderAttrs, renderKids_eq]
+      by_cases hk : kids.isEmpty = true
+      · have : kids = [] := isEmpty_eq_nil hk
+        subst this
+        have h0 : escIf cfg [] = [] := by unfold escIf escapeChars; simp
+        simp [render, h0]
+      · simp [hk]
+  | map m => exact marshal_eq_render cfg rt _ hp
+  | bool b => exact marshal_eq_render cfg rt _ hp
+  | num t => exact marshal_eq_render cfg rt _ hp
+  | str s => exact marshal_eq_render cfg rt _ hp
+
+theorem anyMember_childVals (S : Strconv) (et : Str) (x : Val) (ns : List Node)
+    (hwf : x.wf = true) (h : anyMember ec et x = .ok ns) :
+    Conv.childVals dc S 0 ns ++ [] = (match x with
+        | .map [(tag, val)] =>
+            if tag = ec.textK || isAttrK ec tag then (imageSibs x.norm).map (et, ·)
+            else (imageSibs val.norm).map (tag, ·)
+        | x => (imageSibs x.norm).map (et, ·)) := by
+  rw [List.append_nil]
+  unfold anyMember at h
+  split at h
+  · rename_i tag val
+    have hv : val.wf = true := by
+      simp only [Val.wf, Val.wfEntries, Bool.and_eq_true] at hwf
+      exact hwf.1.1
+    split at h
+    · rename_i hc
+      simp only [hc, if_true]
+      exact childVals_encTree S et _ ns (wf_norm _ hwf) h
+    · rename_i hc
+      simp only [hc, Bool.false_eq_true, if_false]
+      exact childVals_encTree S tag _ ns (wf_norm _ hv) h
+  · rename_i hx
+    have := childVals_encTree S et _ ns (wf_norm _ hwf) h
+    rw [this]
+    split
+    · rename_i tag val
+      exact absurd rfl (hx tag val)
+    · rfl
+
+theorem anyMembers_childVals (S : Strconv) (et : Str) : ∀ (xs : List Val) (ns : List Node),
+    Val.wfList xs = true → anyMembers ec et xs = .ok ns →
+    Conv.childVals dc S 0 ns = anyPairs et xs
+  | [], ns, _, h => by
+      simp only [anyMembers, Except.ok.injEq] at h; subst h
+      simp only [anyPairs, Conv.childVals]
+  | x :: rest, ns, hwf, h => by
+      simp only [Val.wfList, Bool.and_eq_true] at hwf
+      simp only [anyMembers] at h
+      split at h
+      · simp at h
+      · rename_i a ha
+        split at h
+        · simp at h
+        · rename_i r hr
+          simp only [Except.ok.injEq] at h
+          subst h
+          have h1 := anyMember_childVals S et x a hwf.1 ha
+          rw [List.append_nil] at h1
+          rw [childVals_append, h1, anyMembers_childVals S et rest r hwf.2 hr]
+          rfl
+
+theorem anyMembers_isElem (et : Str) : ∀ (xs : List Val) (ns : List Node),
+    anyMembers ec et xs = .ok ns → ∀ n ∈ ns, isElem n = true
+  | [], ns, h => by simp only [anyMembers, Except.ok.injEq] at h; subst h; simp
+  | x :: rest, ns, h => by
+      simp only [anyMembers] at h
+      split at h
+      · simp at h
+      · rename_i a ha
+        split at h
+        · simp at h
+        · rename_i r hr
+          simp only [Except.ok.injEq] at h
+          subst h
+          intro n hn
+          rcases List.mem_append.1 hn with hn | hn
+          · unfold anyMember at ha
+            split at ha
+            · split at ha <;> exact encTree_isElem ec _ _ a ha n hn
+            · exact encTree_isElem ec _ _ a ha n hn
+          · exact anyMembers_isElem et rest r hr n hn
+
+theorem siblingsValue_single (S : Strconv) (key : Str) (attrs : List Attr) (kids : List Node) :
+    siblingsValue dc S [.elem [] key attrs kids]
+      = .map [(key, Conv.value dc S (.elem [] key attrs kids))] := by
+  unfold siblingsValue
+  rw [childVals_single]
+  have := groupOnto_block [] key [Conv.value dc S (.elem [] key attrs kids)] [] (by simp)
+    (by simp [keys]) (by simp [keys])
+  simpa [groupOnto_nil, collectV] using this
+
+/-- the tree `AnyXml` builds decodes to `{rt: anyImage v et}` -/
+theorem siblingsValue_anyTree (S : Strconv) (v : Val) (rt et : Str) (ns : List Node)
+    (hwf : v.wf = true) (h : anyTree ec v rt et = .ok ns) :
+    siblingsValue dc S ns = .map [(rt, anyImage v et)] := by
+  cases v with
+  | null =>
+    simp only [anyTree, Except.ok.injEq] at h; subst h
+    rw [siblingsValue_single, value_empty]; rfl
+  | list xs =>
+    simp only [Val.wf] at hwf
+    simp only [anyTree] at h
+    split at h
+    · simp at h
+    · rename_i kids hk
+      simp only [Except.ok.injEq] at h; subst h
+      rw [siblingsValue_single]
+      have hcv := anyMembers_childVals S et xs kids hwf hk
+      have hel := anyMembers_isElem et xs kids hk
+      by_cases he : kids.isEmpty = true
+      · have : kids = [] := isEmpty_eq_nil he
+        subst this
+        simp only [List.isEmpty_nil, if_true]
+        have hp : anyPairs et xs = [] := by rw [← hcv]; simp only [Conv.childVals]
+        simp only [anyImage, hp, groupOnto_nil, List.isEmpty_nil, if_true]
+        rw [value_leaf]; rfl
+      · simp only [he, Bool.false_eq_true, if_false]
+        rw [value_elem_nil dc S _ _ _ _ (textRuns_elems dc kids _ hel), hcv]
+        rfl
+  | map m => exact siblingsValue_encTree S rt _ ns (wf_norm _ hwf) h
+  | bool b => exact siblingsValue_encTree S rt _ ns (wf_norm _ hwf) h
+  | num t => exact siblingsValue_encTree S rt _ ns (wf_norm _ hwf) h
+  | str s => exact siblingsValue_encTree S rt _ ns (wf_norm _ hwf) h
+
 end Mxj.Enc
